@@ -376,3 +376,12 @@ def cipher_entries(name, cfg, obj):
                 out += split(b, cl)
     # only entries that can be AES-CBC ciphertexts (IV + >= 1 block); shorter fillers are C05's business
     return [e for e in out if isinstance(e, (bytes, bytearray)) and len(e) >= 32 and len(e) % 16 == 0]
+
+
+def shared_scheme(cache, L, cfg, role='client'):
+    """one scheme object per (configuration, role) for a whole work unit: the object is used with many keys and databases
+    one after the other, as an application would; state kept in the object across calls (caches) is thereby exercised"""
+    key = (role, json.dumps(cfg, sort_keys=True))
+    if key not in cache:
+        cache[key] = L.SSEScheme(copy.deepcopy(cfg))
+    return cache[key]
